@@ -33,7 +33,7 @@ VALUE_ALPHABET = "abcXYZ0189 =#:/\\-_.,;%+()[]{}'äß€\U0001F98A"
 
 
 def budget(tier):
-    return 500 if tier == "quick" else 20000
+    return 800 if tier == "quick" else 20000
 
 
 @st.composite
